@@ -982,7 +982,10 @@ MYTH_CTX_CALLBACK void myth_yield_ex_1(void * arg1, void * arg2, void * arg3) {
   myth_thread_t this_thread = arg2;
   myth_thread_t next_thread = arg3;
   //Push current thread to the tail of runqueue
+  MYTH_VERIF_EVENT("cb.enter", this_thread, 0);
+  MYTH_VERIF_EVENT("yield.put", this_thread, next_thread);
   myth_queue_put(&env->runnable_q, this_thread);
+  MYTH_VERIF_EVENT("cb.leave", this_thread, 0);
   env->this_thread = next_thread;
   next_thread->env = env;
 }
